@@ -90,6 +90,7 @@ func Close[T any](c chan<- T) {
 	st.N[0] = 1
 	sched.Release(k)
 	ch.Close()
+	sched.Did(k, "close", true)
 }
 
 // ---- scheduled implementation --------------------------------------------------
@@ -160,6 +161,24 @@ func doSelect(cases []Case, hasDefault bool) (int, Val, bool) {
 	if sched.Current() == nil {
 		return nativeSelect(cases, hasDefault)
 	}
+	i, v, ok := doSelectSched(cases, hasDefault)
+	if i >= 0 {
+		w := "recv"
+		if cases[i].d == dirSend {
+			w = "send"
+		}
+		sched.Did(key(cases[i].ch), w, true)
+	} else {
+		for _, c := range cases {
+			if c.ch.IsValid() && !c.ch.IsNil() {
+				sched.Did(key(c.ch), "default", false)
+			}
+		}
+	}
+	return i, v, ok
+}
+
+func doSelectSched(cases []Case, hasDefault bool) (int, Val, bool) {
 	sel := &selState{}
 	var objs []interface{}
 	for i, c := range cases {
